@@ -110,6 +110,7 @@ struct ExecOp {
     bool argv0_null_hidden = false;         // argv[0]==NULL but further strings follow in memory
     bool success = false;                   // simulated real exec succeeds (process image replaced)
     int ret = -1, err = 2;                  // otherwise: value returned and errno set by the real exec
+    int entry_errno = 0;                    // errno of the calling thread when it makes the call (whatever its last libc call left there)
     std::vector<Fault> faults;
     J to_json() const;
     static ExecOp from_json(const J &j);
